@@ -124,6 +124,7 @@ from ..number import (
     MPBFloatContext,
     MPFixedContext,
     MPSFloatContext,
+    OverflowMode,
     RealFloat,
     RoundingMode,
 )
@@ -261,6 +262,14 @@ class _Prober:
                 'a format representing no non-zero value has no overflow to state'
             )
 
+        # wrapping gives a different answer at every magnitude; the two probes
+        # below can land on the same residue (a sign-magnitude range of
+        # 2^k - 1 values: 2 and 2^64 are congruent modulo 7), so ask the mode
+        if getattr(ctx, 'overflow', None) == OverflowMode.WRAP:
+            return Declined(
+                'the overflow value varies with the operand, or the format '
+                'refuses to round an overflow at all'
+            )
         over = self._overflow(maxval, neg_maxval)
         if over is None:
             return Declined(
